@@ -35,6 +35,11 @@ pub enum ExVia {
     OnDestination,
     /// `source.bind_to_destination(&destination, ..)` / `unbind_from_destination`
     OnSource,
+    /// as OnDestination, but the `source` handle passed as argument was obtained on another
+    /// channel of the connection: the method still belongs on the channel of `destination`
+    OnDestinationArgOnOtherChannel,
+    /// as OnSource, with the `destination` handle obtained on another channel
+    OnSourceArgOnOtherChannel,
 }
 
 #[derive(Clone, Debug, Serialize, Deserialize, PartialEq)]
@@ -339,6 +344,24 @@ fn exec_inner(env: &ChanEnv, op: &Op, op_index: usize) -> Result<OpResult, OpRes
                         e(s.bind_to_destination(&d, routing_key, args))?;
                     }
                 }
+                ExVia::OnDestinationArgOnOtherChannel => {
+                    let d = exchange_handle(ch, &destination)?;
+                    let s = exchange_handle(env.other.unwrap_or(ch), &source)?;
+                    if nowait {
+                        e(d.bind_to_source_nowait(&s, routing_key, args))?;
+                    } else {
+                        e(d.bind_to_source(&s, routing_key, args))?;
+                    }
+                }
+                ExVia::OnSourceArgOnOtherChannel => {
+                    let s = exchange_handle(ch, &source)?;
+                    let d = exchange_handle(env.other.unwrap_or(ch), &destination)?;
+                    if nowait {
+                        e(s.bind_to_destination_nowait(&d, routing_key, args))?;
+                    } else {
+                        e(s.bind_to_destination(&d, routing_key, args))?;
+                    }
+                }
             }
             OpResult::Unit
         }
@@ -363,6 +386,24 @@ fn exec_inner(env: &ChanEnv, op: &Op, op_index: usize) -> Result<OpResult, OpRes
                 ExVia::OnSource => {
                     let d = exchange_handle(ch, &destination)?;
                     let s = exchange_handle(ch, &source)?;
+                    if nowait {
+                        e(s.unbind_from_destination_nowait(&d, routing_key, args))?;
+                    } else {
+                        e(s.unbind_from_destination(&d, routing_key, args))?;
+                    }
+                }
+                ExVia::OnDestinationArgOnOtherChannel => {
+                    let d = exchange_handle(ch, &destination)?;
+                    let s = exchange_handle(env.other.unwrap_or(ch), &source)?;
+                    if nowait {
+                        e(d.unbind_from_source_nowait(&s, routing_key, args))?;
+                    } else {
+                        e(d.unbind_from_source(&s, routing_key, args))?;
+                    }
+                }
+                ExVia::OnSourceArgOnOtherChannel => {
+                    let s = exchange_handle(ch, &source)?;
+                    let d = exchange_handle(env.other.unwrap_or(ch), &destination)?;
                     if nowait {
                         e(s.unbind_from_destination_nowait(&d, routing_key, args))?;
                     } else {
@@ -764,9 +805,29 @@ pub fn expected_frames(
             }
         }
         Op::ExchangeBind { destination, source, routing_key, args, nowait, via } => {
-            if via != ExVia::Channel {
-                v.extend(x_declare_nowait_default(ch, &destination));
-                v.extend(x_declare_nowait_default(ch, &source));
+            let och = other.as_ref().map(|(id, _)| *id);
+            match via {
+                ExVia::Channel => {}
+                ExVia::OnDestination | ExVia::OnSource => {
+                    v.extend(x_declare_nowait_default(ch, &destination));
+                    v.extend(x_declare_nowait_default(ch, &source));
+                }
+                // the handle the operation is called on is obtained first, on this channel; the
+                // argument handle on the other channel (if the session has one)
+                ExVia::OnDestinationArgOnOtherChannel => {
+                    v.extend(x_declare_nowait_default(ch, &destination));
+                    match och {
+                        Some(o) => w.extend(x_declare_nowait_default(o, &source)),
+                        None => v.extend(x_declare_nowait_default(ch, &source)),
+                    }
+                }
+                ExVia::OnSourceArgOnOtherChannel => {
+                    v.extend(x_declare_nowait_default(ch, &source));
+                    match och {
+                        Some(o) => w.extend(x_declare_nowait_default(o, &destination)),
+                        None => v.extend(x_declare_nowait_default(ch, &destination)),
+                    }
+                }
             }
             v.push(m(
                 ch,
@@ -784,9 +845,29 @@ pub fn expected_frames(
             }
         }
         Op::ExchangeUnbind { destination, source, routing_key, args, nowait, via } => {
-            if via != ExVia::Channel {
-                v.extend(x_declare_nowait_default(ch, &destination));
-                v.extend(x_declare_nowait_default(ch, &source));
+            let och = other.as_ref().map(|(id, _)| *id);
+            match via {
+                ExVia::Channel => {}
+                ExVia::OnDestination | ExVia::OnSource => {
+                    v.extend(x_declare_nowait_default(ch, &destination));
+                    v.extend(x_declare_nowait_default(ch, &source));
+                }
+                // the handle the operation is called on is obtained first, on this channel; the
+                // argument handle on the other channel (if the session has one)
+                ExVia::OnDestinationArgOnOtherChannel => {
+                    v.extend(x_declare_nowait_default(ch, &destination));
+                    match och {
+                        Some(o) => w.extend(x_declare_nowait_default(o, &source)),
+                        None => v.extend(x_declare_nowait_default(ch, &source)),
+                    }
+                }
+                ExVia::OnSourceArgOnOtherChannel => {
+                    v.extend(x_declare_nowait_default(ch, &source));
+                    match och {
+                        Some(o) => w.extend(x_declare_nowait_default(o, &destination)),
+                        None => v.extend(x_declare_nowait_default(ch, &destination)),
+                    }
+                }
             }
             v.push(m(
                 ch,
@@ -1027,7 +1108,14 @@ fn decl_mode() -> BoxedStrategy<DeclMode> {
 }
 
 fn ex_via() -> BoxedStrategy<ExVia> {
-    prop_oneof![Just(ExVia::Channel), Just(ExVia::OnDestination), Just(ExVia::OnSource)].boxed()
+    prop_oneof![
+        Just(ExVia::Channel),
+        Just(ExVia::OnDestination),
+        Just(ExVia::OnSource),
+        Just(ExVia::OnDestinationArgOnOtherChannel),
+        Just(ExVia::OnSourceArgOnOtherChannel),
+    ]
+    .boxed()
 }
 
 fn ex_kind() -> BoxedStrategy<ExKind> {
